@@ -5,6 +5,8 @@ open TdModel TdModel.C29
 def parseAct (w : String) : Option Action :=
   match w.splitOn ":" with
   | ["kill"] => some .kill
+  | ["init"] => some .init
+  | ["bind", r] => r.toNat?.map .bind
   | ["reconnect"] => some .reconnect
   | ["close"] => some .close
   | ["inv", r] => r.toNat?.map .inv
